@@ -93,7 +93,11 @@ namespace c18
                 // what user code does next with a fresh block: ask whether it may use aligned accesses on it. Evaluated here, on the very
                 // value allocate returned, so that anything the allocator told the optimizer about that value is in force.
                 if (q)
+                {
                     r.is_aligned_seen = (xsimd::is_aligned<xsimd::sse2>(q) ? 1 : 0) | (xsimd::is_aligned<xsimd::avx>(q) ? 2 : 0) | (xsimd::is_aligned<xsimd::avx512f>(q) ? 4 : 0);
+                    if (sizeof(T) <= 64 && 64 % sizeof(T) == 0)
+                        r.offset_seen = (long)xsimd::get_alignment_offset(q, 64, 64 / sizeof(T));
+                }
             }
             catch (const std::bad_alloc&)
             {
